@@ -213,6 +213,7 @@ func runC02(c *kit.Ctx) {
 		c.Floor("R02.5", "calculateBlocks call sites", n, 1)
 	}
 	_ = types.Typ
+	runC02Affine(c, k)
 }
 
 // canReturnNormally reports whether fn has a reachable Return.
